@@ -66,6 +66,7 @@ func gen(prop, tier string, r *rand.Rand, idx int) any {
 	if prop == "C08" {
 		sc.Mode = []string{"barrier", "dep", "dep", "free"}[r.IntN(4)]
 	}
+	nrOverride := 0
 	nr := 1 + r.IntN(3)
 	id := 0
 	// task counts: biased small, sometimes far beyond the queue
@@ -73,9 +74,20 @@ func gen(prop, tier string, r *rand.Rand, idx int) any {
 	if tier == "thorough" && r.IntN(40) == 0 {
 		maxTasks = 500
 	}
+	if prop == "C12" && r.IntN(60) == 0 {
+		// back-pressure: a small pool whose workers are all parked is offered far more than any buffer
+		sc.Size = 1 + r.IntN(3)
+		eff = sc.Size
+		sc.Mode = "last"
+		maxTasks = 200 + r.IntN(100)
+		nrOverride = 1
+	}
+	if nrOverride > 0 {
+		nr = nrOverride
+	}
 	for i := 0; i < nr; i++ {
 		ns := 1 + r.IntN(4)
-		if r.IntN(3) == 0 {
+		if r.IntN(3) == 0 || nrOverride > 0 {
 			ns = 1
 		}
 		rd := Round{}
@@ -84,7 +96,7 @@ func gen(prop, tier string, r *rand.Rand, idx int) any {
 			n := 0
 			if left > 0 {
 				n = r.IntN(left + 1)
-				if s == ns-1 && r.IntN(2) == 0 {
+				if (s == ns-1 && r.IntN(2) == 0) || nrOverride > 0 {
 					n = left
 				}
 			}
@@ -100,10 +112,10 @@ func gen(prop, tier string, r *rand.Rand, idx int) any {
 			}
 			rd.Subs = append(rd.Subs, ts)
 		}
-		if r.IntN(4) == 0 {
+		if r.IntN(4) == 0 && nrOverride == 0 {
 			rd.Waiters = 1 + r.IntN(2)
 		}
-		if sc.Mode != "barrier" && r.IntN(3) == 0 {
+		if sc.Mode != "barrier" && r.IntN(3) == 0 && nrOverride == 0 {
 			nl := 1 + r.IntN(2)
 			for s := 0; s < nl; s++ {
 				var ts []Task
@@ -366,6 +378,7 @@ func oracle(prop string, sc *Scn, eff, total int, roundOf map[int]int, late map[
 	closed := false
 	var over *eng.Violation
 	var barrier *eng.Violation
+	var noBackPressure *eng.Violation
 	for _, e := range res.Events {
 		switch e.Kind {
 		case "task_start":
@@ -378,6 +391,11 @@ func oracle(prop string, sc *Scn, eff, total int, roundOf map[int]int, late map[
 				over = viol("upper", "%d tasks in flight at seq %d with a pool of size %d (max(size,1)=%d)", inflight, e.Seq, sc.Size, eff)
 			}
 		case "task_end":
+			if len(ends) == 0 && sc.Mode == "last" && total >= 200 && eff <= 4 && len(submitted) == total && noBackPressure == nil {
+				// every worker was parked and far more tasks than any plausible buffer
+				// were offered, yet every Submit had returned before a single task finished
+				noBackPressure = viol("submit-never-blocks", "all %d Submit calls returned before any task had finished on a pool of %d parked worker(s): submission does not block when the queue is full", total, eff)
+			}
 			ends[e.I]++
 			endSeq[e.I] = e.Seq
 			inflight--
@@ -436,6 +454,9 @@ func oracle(prop string, sc *Scn, eff, total int, roundOf map[int]int, late map[
 	}
 	if barrier != nil {
 		return barrier
+	}
+	if noBackPressure != nil && prop == "C12" {
+		return noBackPressure
 	}
 	if res.Deadlock || res.StepLimit {
 		if closed {
